@@ -74,6 +74,9 @@ def scan(repo: Repo) -> RuleRun:
         for i, c in enumerate(tolerance.tests_in(repo, fq.module, fq.node)):
             if c.rtol == 0:
                 r.check(c.strict and not c.negated, fq, "strict '<'", f"{q} accepts with '{ast.unparse(c.node)}'; a vertex exactly at the given distance is outside (strict '<')", c.node, key=f"strict#{i}")
+    from ..domain import projected_length_rule
+
+    projected_length_rule(r, repo, ["util.functions.is_point_on_plane"])
     positions = [0, 3, 5, 5, 9, 7]
     cases = [
         (5, 3, {1, 2, 3, 5}, "radius 3: |d|<3 -> d in {2,0,0,2}"),
